@@ -335,7 +335,7 @@ func replayConv(raw json.RawMessage) (string, string) {
 }
 
 func TestDocumentToPatches(t *testing.T) {
-	ev.Rule(chkConvert, "rapid: documents with non-empty publicKey (1-4 keys of all types / purposes / material), service (1-3 services of every endpoint shape) and alsoKnownAs (1-4 URIs) sections and 0-3 other members with plain names (letters, digits, _) and arbitrary non-null JSON values; oracle: ApplyPatches({}, PatchesFromDocument(doc)) == doc as JSON values; non-trivial = document with >= 1 other member")
+	ev.Rule(chkConvert, "rapid: documents with non-empty publicKey (1-4 keys of all types / purposes / material), service (1-3 services of every endpoint shape) and alsoKnownAs (1-4 URIs) sections and 0-3 other members with plain names (letters, digits, _) and arbitrary JSON values (incl. null, nested null, empty string / list / object, 0, false); oracle: ApplyPatches({}, PatchesFromDocument(doc)) == doc as JSON values; non-trivial = document with >= 1 other member")
 	ev.Rapid(t, chkConvert, 800, 8000, func(t *rapid.T) {
 		d := map[string]interface{}{}
 		var ks, ss, us []interface{}
@@ -355,7 +355,8 @@ func TestDocumentToPatches(t *testing.T) {
 			if name == "publicKey" || name == "service" || name == "alsoKnownAs" || name == "id" {
 				continue
 			}
-			d[name] = rapid.SampledFrom([]interface{}{"text", float64(3), true, []interface{}{"a", float64(1)}, map[string]interface{}{"x": map[string]interface{}{"y": "z"}}, "<&>"}).Draw(t, "memberValue")
+			d[name] = rapid.SampledFrom([]interface{}{"text", float64(3), true, []interface{}{"a", float64(1)}, map[string]interface{}{"x": map[string]interface{}{"y": "z"}}, "<&>",
+				nil, map[string]interface{}{"inner": nil}, []interface{}{nil, "a"}, "", float64(0), false, []interface{}{}, map[string]interface{}{}}).Draw(t, "memberValue")
 		}
 		c := &ConvCase{Doc: d}
 		kind, msg := evalConv(c)
